@@ -80,10 +80,10 @@ Definition PcOk (pc : stream -> context -> res (stream * context)) : Prop :=
   forall s c, SInv s -> Core c -> safeA (pc s c) (fun r => Ext s (fst r) /\ Core (snd r)).
 
 Lemma Core_set_tag c tn : Core c -> Core (set_tag_name c tn).
-Proof. clear Hvalid. intros [L Ch P Aw Af Ns D En]. split; cbn; auto. Qed.
+Proof. clear Hvalid. intros [L Ch P Aw Af Ns D En Cu]. split; cbn; auto. Qed.
 
 Lemma Core_set_floor c v : Core c -> Core (set_entity_floor c v).
-Proof. clear Hvalid. intros [L Ch P Aw Af Ns D En]. split; cbn; auto. Qed.
+Proof. clear Hvalid. intros [L Ch P Aw Af Ns D En Cu]. split; cbn; auto. Qed.
 
 Lemma finish_append_safe buf r c : Valid (tb_buf buf) -> Core c ->
   safe (if negb (tb_is_empty buf)
@@ -171,13 +171,13 @@ Proof.
     intros c1 (H1 & Ha1 & Ht1 & _). cbv beta.
     eapply safeP_bind; [apply safe_safeP, (append_node_core text); auto; exact I|].
     intros [id c2] (H2 & _ & Ht2 & _). cbn. split; auto. congruence.
-  - cbn. split; auto. destruct Hc as [L Ch P Aw Af Ns D En]. split; cbn; auto.
+  - cbn. split; auto. destruct Hc as [L Ch P Aw Af Ns D En Cu]. split; cbn; auto.
     apply Forall_app; split; auto.
   - eapply safeP_bind; [apply safe_safeP, reset_after_text_safe; auto|].
     intros c1 (H1 & Ha1 & Ht1 & _). cbv beta.
     destruct (bytes_eqb _ _); [apply safe_safeP, err_from_safe; auto|].
     cbn. split; [apply Core_set_tag; auto|]. unfold InTag. cbn. exact Hok.
-  - apply safe_safeP, process_attribute_safe; auto.
+  - apply safe_safeP, process_attribute_safe; auto; apply Hok.
   - eapply safeP_bind; [apply safe_safeP, reset_after_text_safe; auto|].
     intros c1 (H1 & Ha1 & Ht1 & Hn1). cbv beta.
     eapply safeP_mono; [apply process_element_safe; auto|].
